@@ -199,7 +199,7 @@ def case_signature(prop, c):
         parts.append("etag=%s" % c["ent"]["etag"].get("s"))
         if c["ent"].get("mt", {}).get("k") == "t":
             parts.append("mtime=%s.%09d" % (c["ent"]["mt"].get("sr", c["ent"]["mt"]["s"]), c["ent"]["mt"]["ns"]))
-    for k in ("hdr", "cap", "ae", "level", "prog", "scripts", "sched", "rseed", "rand_cdrop", "echo", "path", "sig",
+    for k in ("hdr", "cap", "ae", "level", "prog", "scripts", "sched", "rseed", "rand_cdrop", "echo", "path", "sig", "prev",
               "kind", "size", "a", "b", "mt_s", "mt_ns", "trunc", "steps", "target", "ranges", "polls"):
         if k in c:
             parts.append("%s=%s" % (k, json.dumps(c[k], separators=(",", ":"))))
@@ -639,8 +639,8 @@ PLANS["C18"] = {"engines": [{"engine": "file", "trace_module": "FileTrace",
 
 
 def fsdir_mc(tier):
-    c = {"SegSet": '{"a", "sub", "..", ".", "...", "..a", "a..", "", "secret", "b"}' if tier == "thorough"
-         else '{"a", "sub", "..", ".", "...", "..a", "a..", "", "secret"}', "MaxSegs": 4 if tier == "thorough" else 3}
+    c = {"SegSet": '{"a", "sub", "..", ".", "...", "..a", "a..", "", "secret", "b", "dev"}' if tier == "thorough"
+         else '{"a", "sub", "..", ".", "...", "..a", "a..", "", "secret", "dev"}', "MaxSegs": 4 if tier == "thorough" else 3}
     return ("FsDirMC", c, ["Contained", "Sufficient", "Rejects", "Exact"], [])
 
 
